@@ -322,7 +322,7 @@ impl BJudge {
 }
 
 /// Child mode: `mcx iso <prop> <lo> <hi>`.
-pub fn child(prop: &str, lo: usize, hi: usize, no_a: bool) -> i32 {
+pub fn child(prop: &str, lo: usize, hi: usize, no_a: bool, deep: bool) -> i32 {
     use std::cell::{Cell, RefCell};
     use std::rc::Rc;
     crate::trap::install();
@@ -373,7 +373,7 @@ pub fn child(prop: &str, lo: usize, hi: usize, no_a: bool) -> i32 {
             applied.set(applied.get() + 2);
         }
         visited += 1;
-        let level = if i < nfixed || (i + 1) % 256 == 0 || (i + 1 == hi && evs.pair(i).is_none()) { Level::Full } else { Level::Small };
+        let level = if deep || i < nfixed || (i + 1) % 256 == 0 || (i + 1 == hi && evs.pair(i).is_none()) { Level::Full } else { Level::Small };
         let echo = match &ev {
             Event::Process(p) | Event::Decode(p) => Some(p.clone()),
             _ => None,
@@ -410,9 +410,15 @@ fn spawn(prop: &str, lo: usize, hi: usize) -> std::io::Result<std::process::Chil
     spawn_opt(prop, lo, hi, false)
 }
 
+thread_local! {
+    /// thorough tier: the full B set after every A-event
+    static DEEP: std::cell::Cell<bool> = const { std::cell::Cell::new(false) };
+}
+
 fn spawn_opt(prop: &str, lo: usize, hi: usize, no_a: bool) -> std::io::Result<std::process::Child> {
+    let deep = DEEP.with(|d| d.get());
     Command::new(std::env::current_exe()?)
-        .args(["iso", prop, &lo.to_string(), &hi.to_string(), if no_a { "no-a" } else { "a" }])
+        .args(["iso", prop, &lo.to_string(), &hi.to_string(), if no_a { "no-a" } else { "a" }, if deep { "deep" } else { "std" }])
         .stdout(std::process::Stdio::piped())
         .stderr(std::process::Stdio::piped())
         .spawn()
@@ -464,6 +470,8 @@ pub fn phase(run: &mut Run) -> bool {
         return false;
     }
     let t0 = std::time::Instant::now();
+    DEEP.with(|d| d.set(run.tier.thorough()));
+    run.bound("isolation_b_set", if run.tier.thorough() { "full B set after every A-event" } else { "small B set after every A-event, full set after alphabet events, every 256th deviation event and at segment ends" });
     let n = AList::new().total();
     let k = run.threads.max(1).min(n);
     let seg = (n + k - 1) / k;
@@ -525,7 +533,7 @@ pub fn phase(run: &mut Run) -> bool {
         let ev_i = evs.get(i);
         run.subspaces.push(crate::engine::SubSpace { name, cardinality: n as u64, visited });
         let detail = format!("an input derived from {} (one byte damaged, PEC left as it was) on a fresh context, no other context involved: {}", short_event(&ev_i), alone.diffs[0].1);
-        run.acc.violation(1, "derived-input", detail, || json!({"prop": prop, "check": "iso", "lo": i, "hi": i + 1, "no_a": true, "event": ev_i}));
+        run.acc.violation(1, "derived-input", detail, || json!({"prop": prop, "check": "iso", "lo": i, "hi": i + 1, "no_a": true, "event": ev_i, "deep": DEEP.with(|d| d.get())}));
         return false;
     }
     // minimise: does the single A-event reproduce it in a fresh process?  else the segment prefix
@@ -542,7 +550,7 @@ pub fn phase(run: &mut Run) -> bool {
     );
     run.subspaces.push(crate::engine::SubSpace { name, cardinality: n as u64, visited: n as u64 });
     run.caps.push("the isolation phase found cross-context interference; the multi-threaded sub-spaces were not run (their outcomes would not be functions of their cases)".into());
-    run.acc.violation(0, "isolation", detail, || json!({"prop": prop, "check": "iso", "lo": lo, "hi": hi, "event": ev_i}));
+    run.acc.violation(0, "isolation", detail, || json!({"prop": prop, "check": "iso", "lo": lo, "hi": hi, "event": ev_i, "deep": DEEP.with(|d| d.get())}));
     true
 }
 
@@ -557,6 +565,7 @@ fn short_event(e: &Event) -> String {
 
 pub fn replay(case: &Value) -> Result<ReplayOut, String> {
     let prop = case["prop"].as_str().ok_or("iso case lacks prop")?;
+    DEEP.with(|d| d.set(case["deep"].as_bool().unwrap_or(false)));
     let lo = case["lo"].as_u64().ok_or("iso case lacks lo")? as usize;
     let hi = case["hi"].as_u64().ok_or("iso case lacks hi")? as usize;
     let o = run_range_opt(prop, lo, hi, case["no_a"].as_bool().unwrap_or(false));
